@@ -695,9 +695,15 @@ class PVLParser(object):
         ``set`` objects are non-hashable, they cannot be members of a set,
         however, ``frozenset`` objects can.
         """
-        return frozenset(
-            self._parse_set_seq(self.grammar.set_delimiters, tokens)
-        )
+        values = self._parse_set_seq(self.grammar.set_delimiters, tokens)
+        try:
+            return frozenset(values)
+        except TypeError as err:
+            # e.g. a Sequence (a Python list) as a member of the Set
+            raise ParseError(
+                f"A PVL Set with these members cannot be represented "
+                f"as a Python frozenset ({err}): {values}"
+            )
 
     def parse_sequence(self, tokens: abc.Generator) -> list:
         """Parses a PVL Sequence.
@@ -869,7 +875,15 @@ class ODLParser(PVLParser):
         can be represented as a Python ``set`` (unlike PVL Sets,
         which must be represented as a Python ``frozenset`` objects).
         """
-        return set(self._parse_set_seq(self.grammar.set_delimiters, tokens))
+        values = self._parse_set_seq(self.grammar.set_delimiters, tokens)
+        try:
+            return set(values)
+        except TypeError as err:
+            # ODL Sets may only contain scalar values.
+            raise ParseError(
+                f"An ODL Set with these members cannot be represented "
+                f"as a Python set ({err}): {values}"
+            )
 
     def parse_units(self, value, tokens: abc.Generator) -> str:
         """Extends the parent function, since ODL only allows units
